@@ -119,10 +119,10 @@ func genC05(t *rapid.T) E1Case {
 	}
 	spec.CloseInEvent = rapid.IntRange(0, 3).Draw(t, "cie") == 0
 	// closers with distinct errors
-	kinds := []string{"sentinel", "wrapped", "nil", "eof", "neterr"}
+	kinds := []string{"sentinel", "wrapped", "nil", "eof", "neterr", "wrapped-neterr", "timeout", "deadline", "os-deadline"}
 	nc := rapid.IntRange(0, 4).Draw(t, "closers")
 	for i := 0; i < nc; i++ {
-		c.Tasks = append(c.Tasks, E1Task{Role: "closer", Ops: []E1Op{{Op: "close", Err: kinds[(i+rapid.IntRange(0, 4).Draw(t, "ck"))%len(kinds)]}}})
+		c.Tasks = append(c.Tasks, E1Task{Role: "closer", Ops: []E1Op{{Op: "close", Err: kinds[(i+rapid.IntRange(0, 8).Draw(t, "ck"))%len(kinds)]}}})
 	}
 	// other close sources and traffic
 	if rapid.IntRange(0, 2).Draw(t, "feeder") != 0 {
@@ -134,7 +134,13 @@ func genC05(t *rapid.T) E1Case {
 		case 0:
 			task.Ops = append(task.Ops, E1Op{Op: "peereof"})
 		case 1:
-			task.Ops = append(task.Ops, E1Op{Op: "failread", Err: rapid.SampledFrom([]string{"neterr", "timeout", "plain"}).Draw(t, "rerr")})
+			kind := rapid.SampledFrom([]string{"neterr", "neterr", "timeout", "plain"}).Draw(t, "rerr")
+			task.Ops = append(task.Ops, E1Op{Op: "failread", Err: kind})
+			c.WrapRead = rapid.Bool().Draw(t, "wrapread")
+			// an exception handler that only logs: the tail handler never closes the channel. Generated only with a
+			// permanent (non-timeout) network error, which ends the read loop by itself; a swallowed plain error or
+			// time-out leaves the channel open by design (C07: "... that no handler swallows"), and the loop keeps reading
+			c.Swallow = kind == "neterr" && rapid.Bool().Draw(t, "swallow")
 		case 2:
 			task.Ops = append(task.Ops, E1Op{Op: "cancelparent"}, E1Op{Op: "feed", N: 2})
 		}
@@ -161,12 +167,12 @@ func genC05(t *rapid.T) E1Case {
 		c.Tasks = append(c.Tasks, task)
 	}
 	if nw > 0 && c.Kind != "sync" && rapid.IntRange(0, 3).Draw(t, "sfail") == 0 {
-		c.Faults = []mock.Fault{{Op: rapid.SampledFrom([]string{"writev", "flush"}).Draw(t, "fop"), K: rapid.IntRange(1, 2).Draw(t, "fk"), Err: rapid.SampledFrom([]string{"plain", "neterr", "timeout"}).Draw(t, "ferr")}}
+		c.Faults = []mock.Fault{{Op: rapid.SampledFrom([]string{"wr", "flush"}).Draw(t, "fop"), K: rapid.IntRange(1, 2).Draw(t, "fk"), Err: rapid.SampledFrom([]string{"plain", "neterr", "timeout"}).Draw(t, "ferr")}}
 	}
 	if len(c.Tasks) == 0 {
 		c.Tasks = append(c.Tasks, E1Task{Role: "closer", Ops: []E1Op{{Op: "close", Err: "sentinel"}}})
 	}
-	c.Futile = rapid.SampledFrom([]int{0, 0, 0, 1}).Draw(t, "futile")
+	c.Futile = drawFutile(t, []int{0, 0, 0, 1})
 	c.Schedule = genSchedule(t, 150)
 	return c
 }
@@ -279,6 +285,12 @@ func runC05(c E1Case) (out core.Outcome) {
 	}
 	if readFailed {
 		r.cls.Add("read-failed")
+		if c.Swallow {
+			r.cls.Add("read-failure-swallowed-by-handler")
+		}
+		if c.WrapRead {
+			r.cls.Add("read-failure-wrapped")
+		}
 		if rd := r.reader(); rd != nil && !rd.Done() {
 			viol("read-loop-alive-after-read-failure", "a transport read failed but at the terminal state the read loop is still parked at %q", rd.Label())
 		}
